@@ -226,7 +226,8 @@ NestPlans == {Call("each", <<l, Call("asm", <<Call("set", <<P(TRUE, <<C("asm")>>
 \* ------------------------------------------------------------------ arithmetic: 0, 0.0, -0.0, negatives in EVERY position of int, float
 \* and mixed chains (arity 2 and 3), literal and read from the data
 ArithAtoms3 == {IntV(0), Flt(0, 0), NegZero, IntV(4), Flt(3, 1), IntV(-2)}
-ArithAtoms2 == ArithAtoms3 \cup {Flt(-1, 1), IntV(3), Flt(1, 2), P(FALSE, <<C("src"), C("zf")>>), P(FALSE, <<C("src"), C("zi")>>), P(FALSE, <<C("src"), C("f")>>)}
+ArithAtoms2 == ArithAtoms3 \cup {Flt(-1, 1), IntV(3), Flt(1, 2), P(FALSE, <<C("src"), C("zf")>>), P(FALSE, <<C("src"), C("zi")>>), P(FALSE, <<C("src"), C("f")>>),
+                                IntV(-7), IntV(8), IntV(-4)}      \* a negative odd number, powers of two of either sign
 ArithFns == {f \in Fns : Canon(f) \in {"sum", "dif", "product", "quotient"} /\ (Big \/ Canon(f) = f)}
 ArithPlans == {Call(f, <<a, b>>) : f \in ArithFns \cup {"mod"}, a \in ArithAtoms2, b \in ArithAtoms2}
               \cup {Call(f, <<a, b, d>>) : f \in ArithFns, a \in ArithAtoms3, b \in ArithAtoms3, d \in ArithAtoms3}
@@ -241,6 +242,7 @@ Quad(S) == {<<a, b, d, e>> : a \in S, b \in S, d \in S, e \in S}
 CmpTuples == Cube({IntV(1), IntV(2), IntV(3)}) \cup Cube({Flt(1, 1), Flt(3, 1), Flt(5, 1)}) \cup Cube({IntV(1), Flt(3, 1), IntV(2)})
              \cup Cube({S1(97), S1(107), S1(109)}) \cup (IF Big THEN Quad({IntV(1), IntV(2), IntV(3)}) ELSE {}) \cup Quad({S1(97), S1(107), S1(109)})
              \cup Cube({P(FALSE, <<C("src"), C("a")>>), IntV(2), P(FALSE, <<C("src"), C("f")>>)})
+             \cup Cube({IntV(-2), IntV(0), Flt(-1, 1)}) \cup Cube({IntV(-7), IntV(-8), NegZero})      \* negative operands, zero, -0.0
 CmpPlans == {Call(f, t) : f \in CmpFns, t \in CmpTuples}
 
 \* ------------------------------------------------------------------ return values: every function in the MIDDLE of an asm sequence whose
@@ -303,6 +305,9 @@ Behind(mid) == Call("asm", <<Local, mid, StoreAt>>)
 EachMaps == Arr(<<Obj([t |-> Bool(FALSE), a |-> IntV(10), b |-> Arr(<<IntV(9)>>)]), Obj([t |-> Bool(FALSE), a |-> IntV(20), b |-> Arr(<<IntV(7), IntV(6)>>)])>>)
 InEach(mid) == Call("each", <<EachMaps, Call("set", <<P(TRUE, <<C("asm")>>), mid>>)>>)
 Variadic == {x \in Fns : Canon(x) \in {"sum", "product", "lt", "gte", "equal", "neq", "and", "or", "list", "asm", "cond", "each", "string", "substr", "replace", "join"} /\ Canon(x) = x}
+Variadic0 == Variadic
+\* an each body over maps: @ = {src: {t, a, b}}, so @.src.<name> and $.src.<name> differ
+InEachSrc(mid) == Call("each", <<Arr(<<Obj([a |-> IntV(10), sel |-> S1(98)]), Obj([a |-> IntV(20), sel |-> S1(97)])>>), Call("set", <<P(TRUE, <<C("asm")>>), mid>>)>>)
 RouteTable == UNION {{Behind(Call(f, t)) : f \in Fns, t \in {a \in RouteArgs(at) : Len(a) <= 2}}
                      \cup {Behind(Call(f, t)) : f \in (IF Big THEN Fns ELSE Variadic), t \in {a \in RouteArgs(at) : Len(a) = 3}}
                      \cup {InEach(Call(f, t)) : f \in {x \in Fns : Canon(x) \in Specified /\ Canon(x) = x},
@@ -331,19 +336,78 @@ RouteForms == UNION {{Behind(x) : x \in CondForms(at)} \cup {InEach(x) : x \in C
                            Behind(InEach(Call("list", <<RP(at, "a"), P(TRUE, <<C("src"), C("a")>>)>>))),
                            Behind(Call("nth", <<RP(at, "b"), RP(~at, "zi")>>)), Behind(Call("append", <<RP(at, "b"), RP(~at, "a")>>))} : at \in BOOLEAN}
 
-\* ------------------------------------------------------------------ strings that LOOK like paths (start with $ or @) but are not
-\* JSONPaths: "$5.00", "@alice", "$[", "$.".  Arguments are routed by their first character; a string that does not parse
-\* as a path is a plain string (quote's description: "@.x" is a path unless quoted - these are not paths at all).  In every
-\* position that routes strings: every function argument, cond tests and values, asm steps, each list / key, behind a
-\* local value.  Whatever else happens, Execute must come back (Total / C06: the watchdog verdict is kind hang).
-PathLike == {Str(<<36, 53, 46, 48, 48>>), Str(<<64, 97, 108, 105, 99, 101>>), Str(<<36, 91>>), Str(<<36, 46>>)}
-PathLikePlans == {Call(f, <<j>>) : f \in Fns, j \in PathLike} \cup {Call(f, <<j, IntV(2)>>) : f \in Fns, j \in PathLike} \cup {Call(f, <<IntV(2), j>>) : f \in Fns, j \in PathLike}
-                 \cup {Call("cond", <<Pair(j, IntV(1)), Pair(Bool(TRUE), IntV(2))>>) : j \in PathLike} \cup {Call("cond", <<Pair(Bool(TRUE), j)>>) : j \in PathLike}
-                 \cup {Call("cond", <<Pair(Call("equal", <<j, j>>), j)>>) : j \in PathLike} \cup {Call("asm", <<j, Call("set", <<P(FALSE, <<C("asm"), C("r")>>), P(TRUE, <<>>)>>)>>) : j \in PathLike}
-                 \cup {Call("asm", <<Obj([keep |-> IntV(7)]), Call("cond", <<Pair(Bool(TRUE), j)>>), Call("set", <<P(FALSE, <<C("asm"), C("r")>>), P(TRUE, <<>>)>>)>>) : j \in PathLike}
-                 \cup {Call("each", <<Arr(<<IntV(1), IntV(2)>>), Call("set", <<P(TRUE, <<C("asm")>>), Call("cond", <<Pair(Call("equal", <<P(TRUE, <<C("src")>>), IntV(1)>>), j), Pair(Bool(TRUE), P(TRUE, <<C("src")>>))>>)>>)>>) : j \in PathLike}
-                 \cup {Call("each", <<j, Call("set", <<P(TRUE, <<C("asm")>>), IntV(1)>>)>>) : j \in PathLike} \cup {Call("each", <<Arr(<<IntV(1)>>), Call("set", <<P(TRUE, <<C("asm")>>), IntV(1)>>), j>>) : j \in PathLike}
-                 \cup {Call("list", <<j, Arr(<<j>>), Obj([k |-> j])>>) : j \in PathLike} \cup {Call("equal", <<j, j, j>>) : j \in PathLike}
+\* ------------------------------------------------------------------ the argument-class CELL TABLE (totality of NewPlan and Execute):
+\* function x argument position x argument class.  Classes: the eight value kinds, a nested call, a valid $ / @ path that
+\* selects something, the bare roots $ and @, valid paths that select NOTHING, and strings that LOOK like paths (start
+\* with $ or @) but are not JSONPaths ("$5.00", "@@", "$[", "$.", "@ x", "@alice": arguments are routed by their first
+\* character; a string that does not parse as a path is a plain string - quote's description: "@.x" is a path unless
+\* quoted, these are not paths at all).  Every cell carries the obligations of spec/Robust.tla through TraceAsm.Total (the
+\* call comes back, with a result or an error value, from NewPlan as well as from Execute), Deterministic, and - where Asm
+\* defines the function - the documented result.  The plain kinds x arity 0..2 are the part matrix012.
+BadPaths == {Str(<<36, 53, 46, 48, 48>>), Str(<<64, 64>>), Str(<<36, 91>>), Str(<<36, 46>>), Str(<<64, 32, 120>>), Str(<<64, 97, 108, 105, 99, 101>>)}
+MissPaths == {P(FALSE, <<C("src"), C("zz")>>), P(TRUE, <<C("zz")>>), P(FALSE, <<C("src"), C("b"), N(9)>>), P(FALSE, <<C("zz"), C("y")>>)}
+RootPaths == {P(FALSE, <<>>), P(TRUE, <<>>)}
+PlainReps == {Null, Bool(TRUE), IntV(2), Flt(3, 1), Str(<<97, 98>>), Arr(<<IntV(3), IntV(1), IntV(2)>>), Obj([a |-> IntV(1)]), Call("sum", <<IntV(1), IntV(2)>>),
+              P(FALSE, <<C("src"), C("b")>>), P(TRUE, <<C("src"), C("a")>>)}
+NewClasses == BadPaths \cup MissPaths \cup RootPaths
+AllClasses == PlainReps \cup NewClasses
+\* the other argument of a two-argument cell: an int, and for the path-like strings also a string and a list (so that a
+\* function that checks its first argument before it looks at the second still reaches the cell)
+Fillers(x) == IF Big THEN {IntV(2), Str(<<97, 98>>), P(FALSE, <<C("src"), C("b")>>)} ELSE IF x \in BadPaths THEN {IntV(2), P(FALSE, <<C("src"), C("b")>>)} ELSE {IntV(2)}
+CellArity1 == {Call(f, <<x>>) : f \in Fns, x \in NewClasses}
+NewClasses2 == IF Big THEN NewClasses ELSE BadPaths \cup {P(FALSE, <<C("src"), C("zz")>>), P(TRUE, <<C("zz")>>), P(FALSE, <<>>)}
+CellArity2 == UNION {{Call(f, <<x, y>>) : f \in Fns, y \in Fillers(x)} \cup {Call(f, <<y, x>>) : f \in Fns, y \in Fillers(x)} : x \in NewClasses2}
+CellArity3 == IF Big THEN UNION {{Call(f, <<x, IntV(2), IntV(2)>>), Call(f, <<IntV(2), x, IntV(2)>>), Call(f, <<IntV(2), IntV(2), x>>)} : f \in Fns, x \in NewClasses}
+              ELSE UNION {{Call(f, <<IntV(2), IntV(2), x>>), Call(f, <<Str(<<97, 98>>), x, IntV(2)>>)} : f \in Variadic0, x \in BadPaths}
+\* special forms: every position that evaluates an argument in its own way (cond clauses are evaluated at Execute time,
+\* asm steps become the next @, each takes a list / a body / a key, literals inside lists and maps, at / root build paths
+\* from strings, the implied asm) x EVERY class
+StoreR == Call("set", <<P(FALSE, <<C("asm"), C("r")>>), P(TRUE, <<>>)>>)
+CellForms(x) == {Call("cond", <<Pair(x, IntV(1)), Pair(Bool(TRUE), IntV(2))>>), Call("cond", <<Pair(Bool(FALSE), IntV(1)), Pair(x, IntV(2)), Pair(Bool(TRUE), IntV(3))>>),
+                 Call("cond", <<Pair(Bool(TRUE), x)>>), Call("cond", <<Pair(Bool(FALSE), IntV(1)), Pair(Bool(TRUE), x)>>), Call("cond", <<Pair(Bool(TRUE), IntV(1)), Pair(Bool(TRUE), x)>>),
+                 Call("cond", <<Pair(Bool(FALSE), x), Pair(Bool(TRUE), IntV(2))>>), Call("cond", <<Pair(x, x)>>), Call("cond", <<Pair(Call("equal", <<x, x>>), x)>>),
+                 Call("cond", <<Pair(Call("not", <<Call("null?", <<x>>)>>), Call("list", <<x>>))>>), Call("cond", <<x>>),
+                 Call("asm", <<x, StoreR>>), Call("asm", <<Obj([keep |-> IntV(7)]), x, StoreR>>), Call("asm", <<x, x>>),
+                 Call("asm", <<Obj([keep |-> IntV(7)]), Call("cond", <<Pair(Bool(TRUE), x)>>), StoreR>>),
+                 Call("asm", <<Obj([keep |-> IntV(7)]), Call("cond", <<Pair(x, IntV(1)), Pair(Bool(TRUE), IntV(2))>>), StoreR>>),
+                 Call("each", <<Arr(<<IntV(1), IntV(2)>>), Call("set", <<P(TRUE, <<C("asm")>>), Call("cond", <<Pair(Call("equal", <<P(TRUE, <<C("src")>>), IntV(1)>>), x), Pair(Bool(TRUE), P(TRUE, <<C("src")>>))>>)>>)>>),
+                 Call("each", <<Arr(<<IntV(1), IntV(2)>>), Call("set", <<P(TRUE, <<C("asm")>>), Call("cond", <<Pair(x, IntV(1)), Pair(Bool(TRUE), P(TRUE, <<C("src")>>))>>)>>)>>),
+                 Call("each", <<Arr(<<IntV(1), IntV(2)>>), Call("set", <<P(TRUE, <<C("asm")>>), Call("list", <<x, P(TRUE, <<C("src")>>)>>)>>)>>),
+                 Call("each", <<x, Call("set", <<P(TRUE, <<C("asm")>>), IntV(1)>>)>>), Call("each", <<Arr(<<IntV(1)>>), Call("set", <<P(TRUE, <<C("asm")>>), IntV(1)>>), x>>),
+                 Call("each", <<Arr(<<IntV(1)>>), x>>), Call("equal", <<x, x, x>>),
+                 Call("get", <<Call("at", <<x>>)>>), Call("get", <<Call("root", <<Str(<<115, 114, 99>>), x>>)>>), Call("set", <<Call("root", <<Str(<<97, 115, 109>>), x>>), IntV(1)>>),
+                 Call("sort", <<P(FALSE, <<C("src"), C("l")>>), x>>), Call("sort", <<x, P(TRUE, <<C("k")>>)>>), Call("get", <<P(TRUE, <<C("a")>>), x>>), Call("quote", <<x>>)}
+\* inside container literals (only values can stand there: a list / map literal is data, its members are not evaluated)
+CellLits(x) == {Call("each", <<Arr(<<x, x>>), Call("set", <<P(TRUE, <<C("asm")>>), P(TRUE, <<C("src")>>)>>)>>), Call("list", <<x, Arr(<<x>>), Obj([k |-> x])>>),
+                Call("set", <<P(FALSE, <<C("asm"), C("m")>>), Obj([k |-> x, l |-> Arr(<<x>>)])>>), Call("asm", <<Arr(<<x>>), StoreR>>), Call("cond", <<Pair(Bool(TRUE), Arr(<<x, IntV(1)>>))>>)}
+CellPlans == UNION {CellLits(x) : x \in {y \in AllClasses : y.t \in ValueTags}} \cup CellArity1 \cup CellArity2 \cup CellArity3 \cup UNION {CellForms(x) : x \in AllClasses}
+\* the same cells as TOP-LEVEL plans (NewPlan compiles the top-level function itself) and as the first element of a bare plan
+\* (the implied asm: a first element that is not a function name)
+CellTop == {Call(f, <<x>>) : f \in Fns, x \in (IF Big THEN BadPaths ELSE {Str(<<36, 53, 46, 48, 48>>), Str(<<64, 64>>), Str(<<36, 91>>)})} \cup UNION {CellForms(x) : x \in NewClasses}
+CellBare == {Call("asm", <<x, StoreR>>) : x \in AllClasses} \cup {Call("asm", <<x>>) : x \in AllClasses}
+
+\* ------------------------------------------------------------------ histories: the same plan evaluated after OTHER plans in one process
+\* must give the same result as alone (Deterministic over the life of a process: nothing a plan does may be remembered
+\* by the package).  The pool: every function in contexts where @ is not $ (behind a local value, in an each body) with a
+\* $ and an @ argument, the path builders at / root with the SAME argument lists under both names, top-level twins.  The
+\* pipeline makes one history per pool plan: all the other pool plans first, then the plan (so every plan runs after
+\* every other one), in a fresh process, and the plan alone in another fresh process.
+HistArgs == {<<Str(<<115, 114, 99>>), S1(97)>>, <<Str(<<115, 114, 99>>), RP(TRUE, "sel")>>, <<Str(<<115, 114, 99>>), RP(FALSE, "sel")>>, <<Str(<<115, 114, 99>>)>>,
+             <<Str(<<115, 114, 99>>), S1(99), S1(100)>>}
+HistBuilders == UNION {{Behind(Call("get", <<Call(f, t)>>)), InEachSrc(Call("get", <<Call(f, t)>>)), Call("get", <<Call(f, t)>>),
+                        Behind(Call("set", <<Call(f, <<Str(<<97, 115, 109>>), S1(120)>>), Call("get", <<Call(f, t)>>)>>))} : f \in {"at", "root"}, t \in HistArgs}
+HistPool == {Behind(Call(f, t)) : f \in Fns, t \in {<<RP(TRUE, "a")>>, <<RP(FALSE, "b"), RP(TRUE, "zi")>>} \cup (IF Big THEN {<<RP(FALSE, "a")>>, <<RP(TRUE, "s"), Fill>>} ELSE {})}
+            \cup {InEach(Call(f, <<RP(at, "a"), P(TRUE, <<C("src"), C("a")>>)>>)) : f \in Fns, at \in (IF Big THEN BOOLEAN ELSE {TRUE})}
+            \cup HistBuilders \cup UNION {{Behind(x) : x \in CondForms(at)} : at \in BOOLEAN}
+
+\* ------------------------------------------------------------------ mod: sign combinations, zero, powers of two.  The description does not
+\* give the sign rule; whichever it is, it is ONE rule (Asm.ModReadings): two mod calls in one plan are judged together
+ModAs == {IntV(-7), IntV(-8), IntV(7), IntV(-1), IntV(0)}
+ModBs == {IntV(1), IntV(2), IntV(3), IntV(4), IntV(8), IntV(5), IntV(-4), IntV(-3)}
+ModPlans == {Call("mod", <<a, b>>) : a \in ModAs, b \in ModBs \cup {IntV(0)}}
+            \cup {Call("list", <<Call("mod", <<a, b>>), Call("mod", <<a, d>>)>>) : a \in {IntV(-7), IntV(-8), IntV(7)}, b \in ModBs, d \in ModBs}
+            \cup {Call("list", <<Call("mod", <<a, b>>), Call("mod", <<d, b>>)>>) : a \in ModAs, d \in ModAs, b \in {IntV(2), IntV(3), IntV(4), IntV(-4)}}
+            \cup {Call("list", <<Call("mod", <<P(FALSE, <<C("src"), C("a")>>), b>>), Call("mod", <<Call("dif", <<IntV(0), P(FALSE, <<C("src"), C("a")>>)>>), b>>), Call("mod", <<IntV(-7), b>>), Call("mod", <<IntV(-7), IntV(3)>>)>>) : b \in ModBs}
 
 \* ------------------------------------------------------------------ families
 Both(ps, r) == {Case(Wrapped(p), r, FALSE) : p \in ps} \cup {Case(p, r, FALSE) : p \in ps}
@@ -368,7 +432,9 @@ Cases ==
     [] Part = "bigint" -> {Case(Wrapped(p), R1, FALSE) : p \in BigPlans}
     [] Part = "implied" -> {Case(p, R1, b) : p \in ImpliedPlans, b \in BOOLEAN}
     [] Part = "route" -> {Case(p, R1, FALSE) : p \in RouteTable \cup RouteForms \cup TypedPairs}
-    [] Part = "pathlike" -> Both(PathLikePlans, R1)
+    [] Part = "cells" -> {Case(Wrapped(p), R1, FALSE) : p \in CellPlans} \cup {Case(p, R1, FALSE) : p \in CellTop} \cup {Case(p, R1, b) : p \in CellBare, b \in BOOLEAN}
+    [] Part = "hist" -> {Case(p, R1, FALSE) : p \in HistPool}
+    [] Part = "modsign" -> {Case(Wrapped(p), R1, FALSE) : p \in ModPlans}
     [] Part = "forms" -> Both(CondPlans \cup SortPlans \cup EachPlans, R1) \cup Both(SortPlans, R3)
     [] OTHER -> {}
 
